@@ -50,6 +50,8 @@ type Ctx struct {
 }
 
 func NewCtx(p *Prog, prop, tier string) *Ctx {
+	ModuleMethods = p.Methods // the program the per-process helper tables refer to
+	mayWriteMemo = map[*ssa.Function]map[string]bool{}
 	return &Ctx{Prog: p, Prop: prop, Tier: tier, Variant: p.GOOS, Assumptions: map[string]bool{}, RuleCount: map[string]int{}}
 }
 
